@@ -255,6 +255,8 @@ def files_scope(res, pid, rng, tier):
                 open(os.path.join(wd2, "real", "store", "cfgs", "x.cfg"), "wb").write(files[want[0]])
                 open(os.path.join(wd2, "top", "cfgs", "decoy.cfg"), "wb").write(b"hostname decoy\n")
                 os.symlink(os.path.join("..", "real", "store", "inner"), os.path.join(wd2, "top", "link"))
+                os.makedirs(os.path.join(wd2, "@snapshots"))
+                open(os.path.join(wd2, "@snapshots", "r1.cfg"), "wb").write(files[want[0]])
                 o = io.StringIO()
                 with fa.LogCap():
                     cfg.build().anonymize_io(io.StringIO(files[want[0]].decode("utf-8"), newline=""), o)
@@ -279,9 +281,24 @@ def files_scope(res, pid, rng, tier):
                             nc.main(cli_argv(cfg, os.path.join("top", "link", "..", "cfgs"), "out_cli"))
                     except BaseException:  # noqa
                         pass
+                    try:
+                        with fa.LogCap(), _cl2.redirect_stderr(io.StringIO()):
+                            nc.main(cli_argv(cfg, "@snapshots", "@out_cli"))
+                    except BaseException:  # noqa
+                        pass
+                    with fa.LogCap():
+                        try:
+                            anonymize_files("@snapshots", "@out_api", cfg.pwd, cfg.ip, **api_kwargs(cfg))
+                        except Exception:  # noqa
+                            pass
                 finally:
                     _sys.stdin = stdin0
                     os.chdir(cwd)
+                a2_, c2_ = read_tree(os.path.join(wd2, "@out_api")), read_tree(os.path.join(wd2, "@out_cli"))
+                if sorted(a2_) != ["r1.cfg"] or (cfg.prefixes is None and c2_ != a2_):
+                    fails.append({"kind": "command line and directory API produce different content", "cfg": cfg.describe(),
+                                  "situation": "relative input and output directories whose names start with `@`",
+                                  "api_outputs": sorted(a2_), "command_line_outputs": sorted(c2_)})
                 res.evaluations += 3
                 got_dash = open(os.path.join(wd2, "dash.out"), "rb").read() if os.path.isfile(os.path.join(wd2, "dash.out")) else None
                 if got_dash != expect:
